@@ -16,7 +16,27 @@ import (
 // replay test, and — so that the native run follows the same cuts as the symbolic one — rewritten copies of the
 // package's own source files in which every function X that has a verifStub_X in the harness delegates to it.
 // It returns the overlay map (virtual path under repo -> real file under outDir).
-func MakeReplayOverlay(repo, pkgPattern string, harnessFiles []string, outDir string) (map[string]string, []string, error) {
+func MakeReplayOverlay(repo, pkgPattern string, harnessFiles []string, outDir string, aux map[string][]string) (map[string]string, []string, error) {
+	overlay, notApplied, err := replayOverlayPkg(repo, pkgPattern, harnessFiles, outDir, "", true)
+	if err != nil {
+		return nil, nil, err
+	}
+	// auxiliary harness files in other pint packages: same treatment (vocabulary + cut rewriting), no test file
+	for auxPkg, files := range aux {
+		pre := strings.NewReplacer("/", "_", ".", "").Replace(auxPkg) + "_"
+		ov, na, err := replayOverlayPkg(repo, auxPkg, files, outDir, pre, false)
+		if err != nil {
+			return nil, nil, err
+		}
+		for k, v := range ov {
+			overlay[k] = v
+		}
+		notApplied = append(notApplied, na...)
+	}
+	return overlay, notApplied, nil
+}
+
+func replayOverlayPkg(repo, pkgPattern string, harnessFiles []string, outDir, pre string, withTest bool) (map[string]string, []string, error) {
 	pkgDir := filepath.Join(repo, strings.TrimPrefix(pkgPattern, "./"))
 	overlay := map[string]string{}
 	fset := token.NewFileSet()
@@ -43,7 +63,7 @@ func MakeReplayOverlay(repo, pkgPattern string, harnessFiles []string, outDir st
 				}
 			}
 		}
-		dst := filepath.Join(outDir, "zz_verif_"+filepath.Base(h))
+		dst := filepath.Join(outDir, pre+"zz_verif_"+filepath.Base(h))
 		if err := os.WriteFile(dst, src, 0o644); err != nil {
 			return nil, nil, err
 		}
@@ -53,27 +73,29 @@ func MakeReplayOverlay(repo, pkgPattern string, harnessFiles []string, outDir st
 	if err != nil {
 		return nil, nil, err
 	}
-	dst := filepath.Join(outDir, "zz_verif_support.go")
+	dst := filepath.Join(outDir, pre+"zz_verif_support.go")
 	os.WriteFile(dst, sup, 0o644)
 	overlay[filepath.Join(pkgDir, "zz_verif_support.go")] = dst
 
-	exe, _ := os.Executable()
-	tmplPath := filepath.Join(filepath.Dir(filepath.Dir(exe)), "harness", "common", "replay_test.go.tmpl")
-	if p := os.Getenv("VERIF_SUPPORT"); p != "" {
-		tmplPath = filepath.Join(filepath.Dir(p), "replay_test.go.tmpl")
+	if withTest {
+		exe, _ := os.Executable()
+		tmplPath := filepath.Join(filepath.Dir(filepath.Dir(exe)), "harness", "common", "replay_test.go.tmpl")
+		if p := os.Getenv("VERIF_SUPPORT"); p != "" {
+			tmplPath = filepath.Join(filepath.Dir(p), "replay_test.go.tmpl")
+		}
+		tb, err := os.ReadFile(tmplPath)
+		if err != nil {
+			return nil, nil, err
+		}
+		var reg strings.Builder
+		for _, f := range harnessFuncs {
+			fmt.Fprintf(&reg, "\t%q: %s,\n", f, f)
+		}
+		ts := strings.ReplaceAll(strings.ReplaceAll(string(tb), "__PKG__", pkgName), "__REGISTRY__", reg.String())
+		dst = filepath.Join(outDir, "zz_verif_replay_test.go")
+		os.WriteFile(dst, []byte(ts), 0o644)
+		overlay[filepath.Join(pkgDir, "zz_verif_replay_test.go")] = dst
 	}
-	tb, err := os.ReadFile(tmplPath)
-	if err != nil {
-		return nil, nil, err
-	}
-	var reg strings.Builder
-	for _, f := range harnessFuncs {
-		fmt.Fprintf(&reg, "\t%q: %s,\n", f, f)
-	}
-	ts := strings.ReplaceAll(strings.ReplaceAll(string(tb), "__PKG__", pkgName), "__REGISTRY__", reg.String())
-	dst = filepath.Join(outDir, "zz_verif_replay_test.go")
-	os.WriteFile(dst, []byte(ts), 0o644)
-	overlay[filepath.Join(pkgDir, "zz_verif_replay_test.go")] = dst
 
 	// rewrite same-package cut targets
 	var notApplied []string
@@ -193,7 +215,7 @@ func MakeReplayOverlay(repo, pkgPattern string, harnessFiles []string, outDir st
 			}
 		}
 		buf.WriteString("\n")
-		dst := filepath.Join(outDir, "cut_"+name)
+		dst := filepath.Join(outDir, pre+"cut_"+name)
 		os.WriteFile(dst, buf.Bytes(), 0o644)
 		overlay[path] = dst
 	}
